@@ -66,7 +66,45 @@ def body_fwd():
     return _r(ag.deriv(lambda x: x * ag.deriv(lambda y: x * y * y)(x))(2.0))
 
 
-BODIES = dict(simple=body_simple, nested=body_nested, closure=body_closure, fwdrev=body_fwdrev,
+_SHARED = {}
+
+
+def shared():
+    """Derivative-function OBJECTS shared by several threads (each thread passes its own arguments)."""
+    if not _SHARED:
+        ag = lib()["ag"]
+        _SHARED["g"] = ag.grad(lambda x, c: c * x * x)
+        _SHARED["j"] = ag.make_jvp(ag.grad(lambda x, c: c * x ** 3))
+        _SHARED["vg"] = ag.value_and_grad(lambda c, x: c * x ** 2, 1)
+    return _SHARED
+
+
+def body_shared_a():
+    return _r(shared()["g"](3.0, 2.0))
+
+
+def body_shared_b():
+    return _r(shared()["g"](3.0, 5.0))
+
+
+def body_sharedj_a():
+    return _r(shared()["j"](2.0, 1.0)(1.0)[1])
+
+
+def body_sharedj_b():
+    return _r(shared()["j"](2.0, 10.0)(1.0)[1])
+
+
+def body_sharedvg_a():
+    return _r(shared()["vg"](2.0, 3.0))
+
+
+def body_sharedvg_b():
+    return _r(shared()["vg"](7.0, 3.0))
+
+
+BODIES = dict(shared_a=body_shared_a, shared_b=body_shared_b, sharedj_a=body_sharedj_a, sharedj_b=body_sharedj_b,
+              sharedvg_a=body_sharedvg_a, sharedvg_b=body_sharedvg_b, simple=body_simple, nested=body_nested, closure=body_closure, fwdrev=body_fwdrev,
               jacobian=body_jacobian, depth3=body_depth3, fwd=body_fwd)
 ORDER = ["simple", "nested", "closure", "fwdrev", "fwd", "jacobian", "depth3"]
 
@@ -77,6 +115,7 @@ def combos(quick):
     for a, b in itertools.combinations_with_replacement(core, 2):
         out.append((a, b))
     out += [("closure", "jacobian"), ("nested", "depth3"), ("closure", "depth3")]
+    out += [("shared_a", "shared_b"), ("sharedj_a", "sharedj_b"), ("sharedvg_a", "sharedvg_b"), ("shared_a", "sharedj_b")]
     if not quick:
         out += [("jacobian", "jacobian"), ("depth3", "depth3"), ("fwdrev", "depth3")]
     triples = [("simple", "nested", "closure")] if quick else list(itertools.combinations(ORDER[:4], 3))
@@ -97,6 +136,7 @@ def _job(args):
     gran, names, bound, max_exec = args
     from .. import sched
     lib()
+    shared()
     sched.install(gran)
     nlocks = sched.replace_real_locks()
     view = sched.View()
@@ -203,6 +243,7 @@ def replay(ctx, v):
     from .. import sched
     c = v["choices"]
     lib()
+    shared()
     sched.install(c["gran"])
     sched.replace_real_locks()
     view = sched.View()
